@@ -166,6 +166,9 @@ def requests_for(case):
         return [{'model': 'act', 'op': 'stream', 'forest': case['forest']},
                 {'model': 'act', 'op': 'streamfwd', 'forest': fwd_forest(case, 'o')},
                 {'model': 'act', 'op': 'streamfwd', 'forest': fwd_forest(case, 'e')}]
+    if k == 'ncnest':
+        return [{'model': 'act', 'op': 'streammode', 'forest': mode_forest(case, 'o')},
+                {'model': 'act', 'op': 'streammode', 'forest': mode_forest(case, 'e')}]
     if k == 'overlap':
         return [{'model': 'act', 'op': 'stream', 'evs': actlib.overlap_evs(case)}]
     raise ValueError(k)
@@ -341,8 +344,54 @@ def fwd_forest(case, chan):
     return conv(case['forest'])
 
 
+def mode_forest(case, chan):
+    """the forest with, per execution, "a live stream is handed over on this channel" and its io.capture mode"""
+    verb = {int(k): v for k, v in case.get('verb', {}).items()}
+    capm = {int(k): v for k, v in case.get('cap', {}).items()}
+
+    def on(a):
+        v = verb.get(a, 0)
+        return (v not in (0, 1)) if chan == 'o' else (v != 0)
+
+    def conv(items):
+        out = []
+        for it in items:
+            if it[0] == 'x':
+                out.append(['x', it[1], on(it[1]), bool(capm.get(it[1], True)), conv(it[2])])
+            else:
+                out.append(it)
+        return out
+    return conv(case['forest'])
+
+
+def ncnest_passthrough(case):
+    """(P) the statement side, computed from the case alone: the tokens that must be on the original stream of a
+    channel = the own writes of every capture-off execution all of whose ancestors pass text on (capture off, or
+    capture on and live on that channel), plus the live copies of capturing executions under the same condition"""
+    verb = {int(k): v for k, v in case.get('verb', {}).items()}
+    capm = {int(k): v for k, v in case.get('cap', {}).items()}
+    res = {'o': [], 'e': []}
+
+    def passes(a, chan):
+        if not capm.get(a, True):
+            return True
+        v = verb.get(a, 0)
+        return (v not in (0, 1)) if chan == 'o' else (v != 0)
+
+    def walk(items, owner, reach):
+        for it in items:
+            if it[0] == 'w' and owner is not None:
+                for chan in 'oe':
+                    if reach[chan]:
+                        res[chan].append([owner, it[1]])
+            elif it[0] == 'x':
+                walk(it[2], it[1], {c: reach[c] and passes(it[1], c) for c in 'oe'})
+    walk(case['forest'], None, {'o': True, 'e': True})
+    return res
+
+
 RUNNERS = {'py': actlib.run_py, 'cmd': actlib.run_cmd, 'task': actlib.run_task, 'nested': actlib.run_nested,
-           'overlap': actlib.run_overlap}
+           'ncnest': actlib.run_nested, 'overlap': actlib.run_overlap}
 
 
 # ----------------------------------------------------------------------------------------------
@@ -481,6 +530,31 @@ def judge(case, obs, model):
                     cmp('misattributed', 'P', own, spec)
                     cmp('forwarded', 'P', got, fwd[chan].get(a))
             cmp('live-nested', 'P', obs['O' if chan == 'o' else 'E'], orig[chan])
+    elif k == 'ncnest':
+        capm = {int(a): v for a, v in case.get('cap', {}).items()}
+        if obs.get('harness_exc'):
+            bad.append(('escaped-exception', 'K', obs['harness_exc']))
+        if not model[0]['nodup']:
+            bad.append(('bad-case', 'K', 'action ids not distinct'))
+        # (P) restore_exec_nocapture / restore_forest_mode: the installed objects are back, after every top-level execution
+        cmp('cell-not-restored', 'P', obs['restored'], [True, True])
+        for rec in obs['after_each_top']:
+            cmp('cell-not-restored', 'P', rec[1:], [True, True])
+        want = ncnest_passthrough(case)
+        for chan, name, mf in (('o', 'out', model[0]), ('e', 'err', model[1])):
+            live = obs['O' if chan == 'o' else 'E']
+            cmp('mode-cell', 'K', mf['cell'], 'orig')
+            cmp('mode-unbound', 'K', mf['unbound'], False)
+            for a, mo in mf['out'].items():
+                got = obs[name].get(a)
+                cmp('mode-model-out', 'K', got, mo)                       # token for token; None when capture is off
+                if not capm.get(int(a), True):
+                    cmp('nocapture-stored', 'P', got, None)                # nothing captured when capture is off
+                elif got is not None:
+                    cmp('misattributed', 'P', [t for t in got if str(t[0]) == a], mf['spec'][a])
+            cmp('mode-model-orig', 'K', live, mf['origLog'])
+            # (P) nocapture_passthrough: in order, exactly once, whatever the verbosity of the capture-off executions
+            cmp('nocapture-passthrough', 'P', live, want[chan])
     elif k == 'overlap':
         m = model[0]
         if obs.get('problem'):
@@ -575,7 +649,7 @@ def shrink_candidates(case):
                 c = copy.deepcopy(case)
                 c['actions'][i]['chunks'] = []
                 yield c
-    elif k == 'nested':
+    elif k in ('nested', 'ncnest'):
         def drop(items):
             for i in range(len(items)):
                 yield items[:i] + items[i + 1:]
@@ -697,7 +771,7 @@ def nontrivial(case):
         return bool(case.get('chunks')) or case.get('exit', ['status', 0])[1] != 0
     if k == 'task':
         return len(case['actions']) > 1
-    if k == 'nested':
+    if k in ('nested', 'ncnest'):
         return any(it[0] == 'x' and any(s[0] == 'x' for s in it[2]) for it in case['forest']) or len(case['forest']) > 1
     return True
 
@@ -757,6 +831,19 @@ def count_case(st, case):
     elif k == 'nested':
         st.count('nested.actions:%d' % min(8, len(actlib.forest_actions(case['forest']))))
         st.count('nested.depth:%d' % forest_depth(case['forest']))
+    elif k == 'ncnest':
+        acts = actlib.forest_actions(case['forest'])
+        st.count('ncnest.depth:%d' % forest_depth(case['forest']))
+        for a, info in acts.items():
+            if info['kw']:
+                continue
+            capv = case['cap'].get(str(a), True)
+            st.count('ncnest.exec.capture:%s.v:%s' % (capv, case['verb'].get(str(a), 0)))
+            st.count('ncnest.exec.capture:%s.end:%s' % (capv, case['ending'].get(str(a), 'true')))
+            par = info['parent']
+            if par is not None:
+                st.count('ncnest.nesting:%s-in-%s' % ('on' if capv else 'off',
+                                                      'on' if case['cap'].get(str(par), True) else 'off'))
     elif k == 'runner':
         st.count('runner.%s.%s' % (case['par'], case['mode']))
         if case.get('reporter') == 'json':
@@ -826,6 +913,8 @@ def process_batch(batch):
         count_case(st, case)
         if case['kind'] in ('nested', 'overlap') and not probs:
             st.count('hyp.well_nested_and_nodup')
+        if case['kind'] == 'ncnest' and not probs:
+            st.count('hyp.mode_forest_nodup')
         if probs:
             if drv is None:
                 drv = common.LeanDriver()
@@ -1173,6 +1262,39 @@ def gen_nested(rng):
             'ending': {str(a): rng.choice(actlib.ENDINGS) for a in acts}}
 
 
+def gen_ncnest(rng):
+    """a nested scenario where every execution has its own io.capture (True/False) besides verbosity and ending"""
+    c = gen_nested(rng)
+    acts = actlib.forest_actions(c['forest'])
+    c['kind'] = 'ncnest'
+    p_off = rng.choice([0.3, 0.6, 1.0])
+    c['cap'] = {str(a): not (rng.random() < p_off) for a in acts}
+    return c
+
+
+def exhaustive_ncnest():
+    """all forests of up to 3 executions x every capture assignment x verbosity 0 / 1 / 2 (uniform) + all endings for
+    a single capture-off execution"""
+    out = []
+    for base in exhaustive_nested():
+        if list(base['verb'].values())[:1] != [0]:
+            continue
+        acts = sorted(int(a) for a in base['verb'])
+        for caps in itertools.product([True, False], repeat=len(acts)):
+            if all(caps):
+                continue
+            for v in (0, 1, 2):
+                out.append({'kind': 'ncnest', 'forest': base['forest'], 'verb': {str(a): v for a in acts},
+                            'ending': {str(a): 'true' for a in acts},
+                            'cap': {str(a): c for a, c in zip(acts, caps)}})
+    for e in actlib.ENDINGS:
+        for v in (0, 1, 2):
+            for inner_cap in (True, False):
+                out.append({'kind': 'ncnest', 'forest': [['x', 0, [['w', 0], ['x', 1, [['w', 1]]], ['w', 2]]]],
+                            'verb': {'0': v, '1': 2}, 'ending': {'0': e, '1': e}, 'cap': {'0': False, '1': inner_cap}})
+    return out
+
+
 def gen_overlap(rng):
     nthreads = rng.choice([2, 2, 2, 3])
     threads, nxt = [], 0
@@ -1439,6 +1561,11 @@ def build_cases(ctx, scale):
                 cases.append(gen(r, big=(i % (10 if quick else 25) == 0)))
             else:
                 cases.append(gen(r))
+    # io.capture as a mode of the stream machine (own rng: the streams above are unchanged)
+    cases += exhaustive_ncnest()
+    r2 = ctx.sub_rng('ncnest')
+    for i in range((1200 if quick else 12000) * scale):
+        cases.append(gen_ncnest(random.Random(r2.getrandbits(64))))
     return cases
 
 
@@ -1498,10 +1625,14 @@ def run(ctx):
         'task': 'all action sequences up to length %d over a %d-behaviour alphabet'
                 % (2 if ctx.tier == 'quick' else 3, len(TASK_ALPHABET) + len(TASK_CMDS)),
         'overlap': 'all 20 interleavings of two single-action threads (start, write, end)',
-        'nested': 'all forests of up to 3 executions'}
+        'nested': 'all forests of up to 3 executions',
+        'ncnest': 'all forests of up to 3 executions x every io.capture assignment x verbosity 0/1/2; every ending of a '
+                  'capture-off execution with a nested execution of either mode'}
     ctx.extra['hypotheses_satisfied'] = {
         'WN none evs /\\ Nodup (nested cases, by construction through `flatten`, theorem forest_well_nested)':
             ctx.dist.get('kind:nested', 0),
+        'Nodup (Mode.started ..) (ncnest cases: restore_forest_mode / restore_exec_nocapture / nocapture_passthrough)':
+            ctx.dist.get('hyp.mode_forest_nodup', 0),
         'overlap schedules that are not well nested (hypothesis false, counterexample side)':
             ctx.dist.get('overlap.overlapping', 0)}
     clear_hang_flag()
